@@ -450,6 +450,14 @@ Proof.
       * right. apply in_or_app. left. exact Hi.
 Qed.
 
+Lemma run_S f w s m rest tr :
+  run (S f) w ((s, m) :: rest) tr =
+  (do r <- step_msg w s m; run f (fst r) (snd r ++ rest) (tr ++ [(s, m)])).
+Proof. reflexivity. Qed.
+
+Lemma tx_fuel_S : exists f, tx_fuel = S f.
+Proof. exists 399%nat. reflexivity. Qed.
+
 (** every message emitted by the root call of a successful transaction is executed *)
 Lemma root_emitted_in_trace w sender target m funds w' tr w1 out :
   run tx_fuel w [(sender, MWasm target m funds)] [] = Some (w', tr) ->
@@ -458,7 +466,7 @@ Lemma root_emitted_in_trace w sender target m funds w' tr w1 out :
 Proof.
   intros H Hs. split.
   - eapply run_stack_in_trace; [exact H|]. left. left. reflexivity.
-  - unfold tx_fuel in H. cbn [run] in H. rewrite Hs in H. cbn [bind fst snd] in H.
+  - destruct tx_fuel_S as [f Ef]. rewrite Ef, run_S, Hs in H. cbn [bind fst snd] in H.
     intros sm Hi. eapply run_stack_in_trace; [exact H|]. left. apply in_or_app. left. exact Hi.
 Qed.
 
@@ -473,7 +481,8 @@ Theorem token_send_reaches_hub w sender target c amt hk funds w' tr :
 Proof.
   intros Ht H.
   assert (Hs : exists w1 out, step_msg w sender (MWasm target (WCw20 (CSend c amt hk)) funds) = Some (w1, out)).
-  { unfold tx_fuel in H. cbn [run] in H. destruct (step_msg w sender _) as [[w1 out]|]; [eauto|discriminate]. }
+  { destruct tx_fuel_S as [f Ef]. rewrite Ef, run_S in H.
+    destruct (step_msg w sender _) as [[w1 out]|]; [eauto|discriminate]. }
   destruct Hs as (w1 & out & Hs).
   apply (root_emitted_in_trace _ _ _ _ _ _ _ _ _ H Hs).
   apply step_msg_inv in Hs. destruct Hs as [e' _ _ Hn | to wm f e1 o Hm Hsend Hc ->]; [exfalso; eapply Hn; reflexivity|].
